@@ -6,7 +6,7 @@ import time
 from . import core
 
 KNOWN_FILE = os.path.join(core.VERIF, "KNOWN_FINDINGS.txt")
-EVIDENCE_DIR = os.path.join(core.VERIF, "evidence")
+EVIDENCE_DIR = os.environ.get("VERIF_EVIDENCE_DIR") or os.path.join(core.VERIF, "evidence")
 
 
 class Finding:
